@@ -352,7 +352,9 @@ impl<'a> TypingContext<'a> {
             .map(|item| StructItemDefinitionSignature {
               name: item.name,
               type_: type_system::subst_type(&item.type_, &subst_map),
-              is_public: item.is_public || nominal_type.id.eq(&self.current_class),
+              is_public: item.is_public
+                || (nominal_type.module_reference == self.current_module_reference
+                  && nominal_type.id.eq(&self.current_class)),
             })
             .collect(),
         );
